@@ -39,11 +39,21 @@ let path_text (p : n list list) : string =
   let hx = List.mapi (fun i c -> if staging && i = n - 1 then "*" else hex_of_bytes c) p in
   abbreviate (String.concat "/" hx)
 
+(* blocks above 2048 bytes are shown as B<len>:<md5> (harness/lib ContentTok) *)
+let content_tok (c : n list) : string =
+  let len = List.length c in
+  if len <= 2048 then hex_of_bytes c
+  else begin
+    let b = Bytes.create len in
+    List.iteri (fun i x -> Bytes.set b i (Char.chr (int_of_n x land 255))) c;
+    "B" ^ string_of_int len ^ ":" ^ Digest.to_hex (Digest.bytes b)
+  end
+
 let listing (f : (n list list * node) list) : string =
   let ents = List.map (fun (p, nd) ->
       match nd with
       | Dir -> "d:" ^ path_text p
-      | File c -> "f:" ^ path_text p ^ "=" ^ hex_of_bytes c) f in
+      | File c -> "f:" ^ path_text p ^ "=" ^ content_tok c) f in
   String.concat "," (List.sort compare ents)
 
 let shard_of = function "r133" -> R133 | "r122" -> R122 | _ -> R12
